@@ -3,6 +3,7 @@ package eng
 import (
 	"fmt"
 	"go/token"
+	"go/types"
 	"math/big"
 	"strings"
 
@@ -76,6 +77,42 @@ func runC19(c *Check, w *World) {
 					}
 				}
 			})
+		}
+		if !okChain {
+			// range-over-func form: for _, mw := range slices.Backward(list) { final = mw(final) } — the loop body is a
+			// yield closure whose parameter is called, and the iterator is one of the slices package over Chain's list
+			calledParam, overList := false, false
+			var nested []*ssa.Function
+			var collect func(f *ssa.Function)
+			collect = func(f *ssa.Function) {
+				for _, a := range f.AnonFuncs {
+					nested = append(nested, a)
+					collect(a)
+				}
+			}
+			collect(ch)
+			for _, f := range nested {
+				f := f
+				EachInstr(f, func(in ssa.Instruction) {
+					cl, ok := in.(*ssa.Call)
+					if !ok {
+						return
+					}
+					if p, isP := cl.Call.Value.(*ssa.Parameter); isP && p.Parent() == f && !cl.Call.IsInvoke() {
+						if _, isSig := p.Type().Underlying().(*types.Signature); isSig {
+							calledParam = true
+						}
+					}
+					n := CalleeName(cl.Common())
+					if strings.HasPrefix(n, "slices.Backward") || strings.HasPrefix(n, "slices.All") || strings.HasPrefix(n, "slices.Values") {
+						// the list: Chain's only slice of middlewares (its variadic parameter, captured)
+						if len(cl.Call.Args) == 1 && len(ch.Params) == 1 && types.Identical(cl.Call.Args[0].Type(), ch.Params[0].Type()) {
+							overList = true
+						}
+					}
+				})
+			}
+			okChain = calledParam && overList
 		}
 		c.Decide(okChain, "R19.2", FuncName(ch), "chain-applies-all", "Chain wraps the final handler with each middleware of its list in a loop", "Chain does not apply the middlewares of its list", w.Pos(ch.Pos()))
 	} else {
